@@ -237,6 +237,7 @@ func chainProperty(prop string) func(t *rapid.T) {
 		r := &chainRun{t: t, prop: prop, w: w, orphanBH: map[string]bool{}, orphanTx: map[string]bool{}}
 		r.f = &failer{t: t, prop: prop, ops: &r.ops}
 		r.g = newHistGen(t, w)
+		r.g.replays = 8 // blocks are executed again after rollbacks
 		r.base = w.N.Height()
 		meta := w.N.Ledger.GetChainMeta()
 		r.baseIC, r.baseHash = meta.InterchainTxCount, meta.BlockHash.String()
